@@ -1,5 +1,33 @@
 import BigtreeModel.Proto
-/-! Driver handler for property C19: one case (token list) in, one canonical line out. -/
+import BigtreeModel.Plot
+/-! Driver handler for property C19 (Reingold–Tilford).
+`sib=<q> sub=<q> lvl=<q> xoff=<q> yoff=<q> T <tree>` with `<q>` = `num/den` or `num`
+→ `ok x,y x,y …` for every node in pre-order, each coordinate an exact rational `num/den`. -/
 namespace Drv.C19
-def handle (_toks : List String) : String := "unimplemented"
+open Proto Plot
+
+def parseRat (s : String) : Option Rat :=
+  match s.splitOn "/" with
+  | [n] => n.toInt?.map fun i => (i : Rat)
+  | [n, d] => do
+    let i ← n.toInt?
+    let k ← d.toNat?
+    if k = 0 then none else pure (mkRat i k)
+  | _ => none
+
+def showRat (r : Rat) : String := toString r.num ++ "/" ++ toString r.den
+
+def handle (toks : List String) : String :=
+  let r : Option String := do
+    let sib ← parseRat (← kv toks "sib")
+    let sub ← parseRat (← kv toks "sub")
+    let lvl ← parseRat (← kv toks "lvl")
+    let xoff ← parseRat (← kv toks "xoff")
+    let yoff ← parseRat (← kv toks "yoff")
+    let rest := (toks.dropWhile (· ≠ "T")).drop 1
+    let (t, more) ← parseTree rest
+    if !more.isEmpty then none
+    let P : Params := { sib := sib, sub := sub, lvl := lvl, xoff := xoff, yoff := yoff }
+    pure ("ok " ++ " ".intercalate ((layout P t).coords.map fun (x, y) => showRat x ++ "," ++ showRat y))
+  r.getD "bad-op"
 end Drv.C19
